@@ -24,7 +24,8 @@ vars == <<row, out, reqs>>
 
 \* ---------------- sources ----------------
 EvLogs == {"none", "unreadable", "nomatch", "raw", "raw_uri", "var_ok", "var_missing", "var_missing_uri", "var_ok_uri", "local_kind", "uri"}
-Quotes == {"none", "unparseable", "snp_extra", "snp_noextra", "report_only", "tdx", "certtable_extra", "certtable_noextra"}
+Quotes == {"none", "unparseable", "snp_extra", "snp_noextra", "report_only", "tdx", "certtable_extra", "certtable_noextra",
+           "snp_short_meas", "tdx_short_mrtd"}      \* a report / quote whose measurement is not 48 bytes long
 Providers == {"none", "snp_extra", "snp_noextra", "failing"}
 Getters == {"none", "ok", "failing"}
 SrcRows == [mode : {"sources"}, evlog : EvLogs, quote : Quotes, provider : Providers, getter : Getters, force : BOOLEAN]
@@ -52,6 +53,7 @@ FromQuote(q) ==
     [] q \in {"snp_noextra", "report_only", "tdx"} -> <<"", "full", FALSE>>
     [] q = "certtable_extra" -> <<"quote_extra", "", FALSE>>     \* no measurement in a bare certificate table
     [] q = "certtable_noextra" -> <<"", IF Design = "legacy" THEN "short" ELSE "", FALSE>>
+    [] q \in {"snp_short_meas", "tdx_short_mrtd"} -> <<"", IF Design = "legacy" THEN "short" ELSE "", FALSE>>
 FromProvider(p) ==
   CASE p = "snp_extra" -> <<"provider_extra", IF Design = "legacy" THEN "" ELSE "full", FALSE>>
     [] p = "snp_noextra" -> <<"", "full", FALSE>>
